@@ -177,6 +177,27 @@ Theorem C18_simple_cleaning_field_safe :
 Proof. exact sc_filter_safe. Qed.
 Print Assumptions C18_simple_cleaning_field_safe.
 
+(* exact threshold --min-chars: the quantity compared is the number of code points of the field, so a field
+   with fewer than --min-chars code points is dropped (the check tests the other direction, exactly
+   min-chars kept, on the real binary where no other rule fires) *)
+Theorem C18_simple_cleaning_min_chars :
+  forall script_of is_punct is_uspace sc si too_common little_punct script_low o (f : line),
+  sc_filter script_of is_punct is_uspace sc si too_common little_punct script_low o f = true ->
+  exists cps, codepoints f = Some cps /\ (sc_min_chars o <= N.of_nat (length cps))%N.
+Proof. exact sc_filter_min_chars. Qed.
+Print Assumptions C18_simple_cleaning_min_chars.
+
+(* exact threshold --character-run R (R >= 2): a kept field contains no R equal consecutive code points
+   other than space characters (the check tests R-1 / R / R+1 on the real binary) *)
+Theorem C18_simple_cleaning_character_run :
+  forall script_of is_punct is_uspace sc si too_common little_punct script_low o (f : line) cps,
+  (2 <= sc_character_run o)%N ->
+  sc_filter script_of is_punct is_uspace sc si too_common little_punct script_low o f = true ->
+  codepoints f = Some cps ->
+  forall pre c post, cps = pre ++ repeat c (N.to_nat (sc_character_run o)) ++ post -> is_uspace c = true.
+Proof. exact sc_filter_no_long_run. Qed.
+Print Assumptions C18_simple_cleaning_character_run.
+
 (* per line, with the default key (-f 1-: every field is examined) and a delimiter that is itself an
    allowed ASCII byte (the default TAB is): every byte of a kept line is >= 32, TAB or CR, and the line
    is well-formed UTF-8.  (With -f restricting the fields, unselected fields are not examined: forced hypothesis.) *)
